@@ -408,7 +408,11 @@ func CloneSubjects(seed int64) []cloneSubject {
 	for _, which := range []string{"CloneSource", "FromSource"} {
 		which := which
 		sh := cloneShape{Assets: 1, Parts: 2, Locked: 1, IndexMap: false, SigMask: 1}
-		subs = append(subs, sourceSubject(which, sh, seed))
+		// a staged transaction outlives the signing phase when a dispute starts (SetRegistering / SetRegistered /
+		// SetWithdrawing only change the phase): a snapshot is a clone in every phase
+		for _, ph := range []channel.Phase{channel.Signing, channel.Registered, channel.Withdrawing} {
+			subs = append(subs, sourceSubject(which, sh, seed, ph))
+		}
 	}
 	return subs
 }
@@ -444,14 +448,18 @@ func sourceLeaves(s channel.Source) map[string]leafOps {
 	return m
 }
 
-func sourceSubject(which string, sh cloneShape, seed int64) cloneSubject {
+func sourceSubject(which string, sh cloneShape, seed int64, phase channel.Phase) cloneSubject {
+	name := "persistence." + which
+	if phase != channel.Signing {
+		name += "/" + phase.String()
+	}
 	return cloneSubject{
-		Name: "persistence." + which,
+		Name: name,
 		Make: func() any {
 			p, _ := mkParams(sh, seed)
 			stg, cur := mkTx(sh, seed), mkTx(cloneShape{Assets: 1, Parts: 2, SigMask: 3}, seed)
 			stg.State.Version = 6
-			return channel.Source(&fakeSource{idx: 1, params: p, stg: stg, cur: cur, phase: channel.Signing})
+			return channel.Source(&fakeSource{idx: 1, params: p, stg: stg, cur: cur, phase: phase})
 		},
 		Clone: func(v any) any {
 			if which == "CloneSource" {
